@@ -194,7 +194,14 @@ def symmetric_graph(rng, gid, eventually=False):
     if rng.random() < 0.3:
         out = set(sym_set(0.15))
         inb = [s not in out for s in range(1, n + 1)]
-    init_v = [rng.randrange(m)] * k if rng.random() < 0.7 else sorted(rng.randrange(m) for _ in range(k))
+    r0 = rng.random()
+    if r0 < 0.4:
+        init_v = [rng.randrange(m)] * k
+    elif r0 < 0.6:
+        init_v = sorted(rng.randrange(m) for _ in range(k))
+    else:
+        # an initial state that is NOT its own representative (e.g. [1, 0] with representative [0, 1])
+        init_v = sorted((rng.randrange(m) for _ in range(k)), reverse=True)
     init = [enc(init_v)]
     inb[init[0] - 1] = True
     props = []
